@@ -41,6 +41,6 @@ func run(c *hlib.Ctx) {
 	lakeh.RunPlan(c, lakeh.Plan{
 		Opt:      lakeh.Options{Prop: "C15", StopOnFail: true},
 		Profiles: []lakeh.Profile{guarded, open},
-		Quick:    50, Thorough: 2500,
+		Quick:    50, Thorough: 1500,
 	})
 }
